@@ -99,6 +99,17 @@ Theorem C04_extract_env : forall assigns c0 cs,
 Proof. exact env_extract. Qed.
 Print Assumptions C04_extract_env.
 
+(* env OPTION... [NAME=VALUE]... COMMAND ARG... for every sequence of the option spellings of env_opts:
+   -i -v and their clusters, --ignore-environment --debug --list-signal-handling --block-signal
+   --default-signal --ignore-signal (also abbreviated), -u NAME, --unset NAME, -C DIR, --chdir DIR
+   (separate), --unset=NAME --uns=NAME --chdir=DIR --ch=DIR (=-joined), -uNAME, -CDIR (attached) -
+   every NAME that env accepts, every DIR, every assignment list and every command *)
+Theorem C04_extract_env_opts : forall opts assigns c0 cs,
+  env_opts opts -> forallb assign_word assigns = true -> dash c0 = false -> has_eq c0 = false ->
+  env_h ($"env" :: opts ++ assigns ++ c0 :: cs) = HWords [c0 :: cs] false /  env_exec (opts ++ assigns ++ c0 :: cs) = Some [c0 :: cs].
+Proof. exact env_extract_opts. Qed.
+Print Assumptions C04_extract_env_opts.
+
 (* xargs COMMAND ARG... and xargs -- COMMAND ARG... *)
 Theorem C04_extract_xargs : forall c0 cs, dash c0 = false -> xargs_unsafe (c0 :: cs) = false ->
   xargs_h ($"xargs" :: c0 :: cs) = HWords [c0 :: cs] false /\ xargs_exec (c0 :: cs) = Some [c0 :: cs].
@@ -228,6 +239,16 @@ Proof.
   split; [|vm_compute; reflexivity].
   apply dk_bool; [cbn; tauto|]. apply dk_sep; [cbn; tauto|].
   apply (dk_eq $"--env=" $"A=1"); [cbn; tauto|]. apply (dk_att $"-w" $"dir"); [cbn; tauto|discriminate|]. constructor.
+Qed.
+Example C04_example_env :
+  env_opts (w ["-iv"; "-u"; "HOME"; "--chdir=/tmp"; "-uPATH"; "--block-signal"]) /\
+  env_h (w ["env"; "-iv"; "-u"; "HOME"; "--chdir=/tmp"; "-uPATH"; "--block-signal"; "A=1"; "rm"; "-rf"; "x"]) = HWords [w ["rm"; "-rf"; "x"]] false /\
+  env_exec (w ["-iv"; "-u"; "HOME"; "--chdir=/tmp"; "-uPATH"; "--block-signal"; "A=1"; "rm"; "-rf"; "x"]) = Some [w ["rm"; "-rf"; "x"]].
+Proof.
+  split; [|vm_compute; split; reflexivity].
+  apply eo_bool; [cbn; tauto|]. apply eo_unset; [cbn; tauto|reflexivity|].
+  apply (eo_chdir_eq $"--chdir=" $"/tmp"); [cbn; tauto|]. apply (eo_unset_att $"PATH"); [reflexivity|].
+  apply eo_bool; [cbn; tauto|]. constructor.
 Qed.
 Example C04_example_oracles_satisfiable :
   (* the two oracle hypotheses hold, e.g., for the analysis that asks for everything but the empty text *)
